@@ -117,6 +117,9 @@ def expected_probes(st):
     seen = st["features.diagnostics"] and st["limits.maxFileSizeBytes"] >= 40
     exp["tooDeep"] = (st["limits.maxIncludeDepth"] == 1) if seen else None
     exp["bigTooLarge"] = (st["limits.maxFileSizeBytes"] < 3000) if (seen and st["limits.maxIncludeDepth"] >= 2) else None
+    # a document opened once and never edited: deep.journal -> l1.journal -> l2.journal (3.1 kB).  What completion offers
+    # from l2 follows the limits IN FORCE NOW, in both directions (raised as well as lowered)
+    exp["deepOffered"] = (st["limits.maxIncludeDepth"] >= 3 and st["limits.maxFileSizeBytes"] >= 3300) if (st["limits.maxFileSizeBytes"] >= 70 and st["completion.maxResults"] >= 5) else None
     return exp
 
 
@@ -169,6 +172,10 @@ def evaluate(c, res):
             if ep["bigTooLarge"] is not None and "bigTooLarge" in gp and gp["bigTooLarge"] != ep["bigTooLarge"]:
                 divs.append(("probe:include-size-limit", "step %d payload %s: a document that includes a file of 3.1 kB (already in the loader's cache) %s 'too large', limits.maxFileSizeBytes in effect is %r" % (
                     k, pj[:200], "reports" if gp["bigTooLarge"] else "does not report", exp["limits.maxFileSizeBytes"])))
+                break
+            if ep["deepOffered"] is not None and "deepOffered" in gp and gp["deepOffered"] != ep["deepOffered"]:
+                divs.append(("probe:limits-reach-open-documents", "step %d payload %s: a document that was opened earlier and not edited since includes l1 -> l2 (3.1 kB): completion %s the account of l2, limits in effect are depth %r, size %r" % (
+                    k, pj[:200], "offers" if gp["deepOffered"] else "does not offer", exp["limits.maxIncludeDepth"], exp["limits.maxFileSizeBytes"])))
                 break
             if ep["tooDeep"] is not None and "tooDeep" in gp and gp["tooDeep"] != ep["tooDeep"]:
                 divs.append(("probe:include-depth-limit", "step %d payload %s: a document with one include directive %s 'include depth limit exceeded', limits.maxIncludeDepth in effect is %r" % (
